@@ -114,3 +114,25 @@ Definition aopen_f (src : list Z) : result astate :=
 Definition arun_f (ap : Z -> Z -> Z -> Z) (src : list Z) (chunks : list (list (list Z))) : result (list Z) :=
   do s <- aopen_f src;
   aclose (fold_left (fun s c => fst (apoints ap s c true)) chunks s).
+
+(* The appender as repaired by fix 58dc68d: after re-emitting the EVLRs the destination is truncated (an original file
+   may have unused bytes between its last point and its first EVLR; what is left of the old EVLRs behind the new end is
+   dropped). For originals written by laspy nothing lies beyond the new end and this is Model/Las.v's aclose. *)
+Definition aclose_t (s : astate) : result (list Z) :=
+  let st := a_st s in
+  let '(st', f) :=
+    match a_evlrs s with
+    | Some (e :: es) =>
+        match enc_vlrs true (e :: es) with
+        | Ok eb => (mkS (s_count st) (s_max st) (s_min st) (s_ret st) (a_pos s) (s_nevlr st),
+                    ztake (a_pos s + len eb) (write_at (a_file s) (a_pos s) eb))
+        | Err _ => (st, a_file s)
+        end
+    | _ => (st, a_file s)
+    end in
+  do hb <- enc_header (with_stats (a_h s) st') (a_vlrs s) true;
+  Ok (write_at f 0 (snd hb)).
+
+Definition arun_t (ap : Z -> Z -> Z -> Z) (src : list Z) (chunks : list (list (list Z))) : result (list Z) :=
+  do s <- aopen_f src;
+  aclose_t (fold_left (fun s c => fst (apoints ap s c true)) chunks s).
